@@ -355,7 +355,7 @@ def _fallback(args):
 
 
 CACHE_DIR = os.path.join(os.path.dirname(os.path.dirname(os.path.abspath(__file__))), ".cache", "smt")
-ENGINE_VERSION = "inst-10"  # bump when instantiation / lemma set / solving strategy changes
+ENGINE_VERSION = "inst-11"  # bump when instantiation / lemma set / solving strategy changes
 
 
 def _cache_key(smt2, expect, raw):
@@ -466,7 +466,11 @@ def discharge(obligations, timeout_s=20, jobs=None, fallback=True, opts=None):
     if _OBS:
         ctxm = mp.get_context("fork")
         _RUN["final"] = False
-        with ctxm.Pool(min(jobs, len(_OBS))) as pool:
+        # maxtasksperchild=1: every obligation is serialised and solved in a worker freshly forked from this
+        # (idle) parent, so the SMT-LIB text z3 prints -- and with it the memo / certificate key -- does not depend
+        # on which other obligations the same worker happened to process before (z3's printer is sensitive to the
+        # AST allocation history of the process)
+        with ctxm.Pool(min(jobs, len(_OBS)), maxtasksperchild=1) as pool:
             for res in pool.imap_unordered(_work, range(len(_OBS)), chunksize=1):
                 results[res[0]] = res
         # second pass for anything left without a decision: fewer workers (less contention), twice the budget, so
@@ -475,7 +479,7 @@ def discharge(obligations, timeout_s=20, jobs=None, fallback=True, opts=None):
         _RUN["final"] = True
         if again:
             _RUN["timeout_s"] = timeout_s * 2
-            with ctxm.Pool(min(4, len(again))) as pool:
+            with ctxm.Pool(min(4, len(again)), maxtasksperchild=1) as pool:
                 for res in pool.imap_unordered(_work, again, chunksize=1):
                     results[res[0]] = res
             _RUN["timeout_s"] = timeout_s
